@@ -315,3 +315,117 @@ def check_root_predicate(ctx, args, out_r):
         ctx.finding("solve-root-clamp", f"both ends negative but returned {r} != lower bound", {"args": args})
     elif flo > 0 and fhi > 0 and r != hi:
         ctx.finding("solve-root-clamp", f"both ends positive but returned {r} != upper bound", {"args": args})
+
+
+# ----------------------------------------------------------------------------- RowWise search
+def real_rw(start, stop, step, cont, max_iter, e1, oracle, esub, perimeter=None):
+    """Run the REAL RowWiseModifiedBisectionSearch.search with a synthetic field generator.
+    oracle(spacing) -> (nbh, excess_at_max_height, sized_height); esub[n-1] = excess of the n-borehole
+    sub-field.  Returns (outcome, trace, table of every spacing queried)."""
+    from unittest import mock
+
+    import ghedesigner.search_routines as sr
+
+    table = {}
+
+    def gen(spacing):
+        if spacing not in table:
+            table[spacing] = oracle(spacing)
+        nb = table[spacing][0]
+        return [[[float(k), float(spacing)] for k in range(nb)], f"S{spacing!r}"]
+
+    def fake_fr(space_start, rotate_step, prop_bound, ng_zones=None, rotate_start=None, rotate_stop=None, **kw):
+        return gen(space_start)
+
+    def fake_wp(p_space, space_start, rotate_step, prop_bound, ng_zones=None, rotate_start=None, rotate_stop=None):
+        return gen(space_start)
+
+    trace = []
+    obj = sr.RowWiseModifiedBisectionSearch.__new__(sr.RowWiseModifiedBisectionSearch)
+    obj.geometricConstraints = types.SimpleNamespace(min_spacing=start, max_spacing=stop, spacing_step=step, rotate_step=1.0,
+                                                     property_boundary=[[0, 0], [1, 0], [1, 1]], no_go_boundaries=[],
+                                                     min_rotation=0.0, max_rotation=0.0, perimeter_spacing_ratio=perimeter)
+    obj.sim_params = types.SimpleNamespace(max_boreholes=None, min_height=60.0, max_height=135.0, continue_if_design_unmet=cont)
+    obj.max_iter = max_iter
+    obj.advanced_tracking = [["TargetSpacing", "Field Specifier", "nbh", "ExcessTemperature"]]
+    obj.checkedFields = []
+    obj.searchTracker = []
+    obj.disp = False
+    state = {"last": None}
+
+    def ce(coords, h, field_specifier="N/A"):
+        if field_specifier == "1X1":
+            trace.append("one")
+            state["last"] = ("one",)
+            return e1
+        if "_BR" in field_specifier:
+            n = len(coords)
+            trace.append(f"sub{n}")
+            state["last"] = ("sub", n)
+            return esub[n - 1]
+        s = float(field_specifier[1:])
+        trace.append("s" + core.rs(s))
+        state["last"] = ("sp", s)
+        return table[s][1]
+
+    def init(coords, h, field_specifier="N/A"):
+        s = float(field_specifier[1:].split("_BR")[0]) if field_specifier.startswith("S") else None
+        state["last"] = ("sp", s)
+        obj.ghe = types.SimpleNamespace(compute_g_functions=lambda: None, size=lambda method=None: None,
+                                        bhe=types.SimpleNamespace(b=types.SimpleNamespace(H=table[s][2] if s in table else 0.0)))
+
+    obj.calculate_excess = ce
+    obj.initialize_ghe = init
+    try:
+        with mock.patch.object(sr, "gen_shape", lambda a, b: (None, None)), \
+                mock.patch.object(sr, "field_optimization_fr", fake_fr), \
+                mock.patch.object(sr, "field_optimization_wp_space_fr", fake_wp), ghelib.quiet():
+            coords, spec = obj.search()
+        n = len(coords)
+        if spec == "1X1":
+            out = "selected single"
+        elif spec is not None and "_BR" in spec:
+            out = f"selected sub{n}"
+        else:
+            s = float(coords[0][1])
+            esc = " escape" if (cont and table[start][1] > 0 and table[stop][1] > 0) else ""
+            out = f"selected s{core.rs(s)}{esc}"
+    except Exception as e:  # noqa: BLE001
+        out = exc_name(e)
+    return out, " ".join(trace), dict(table)
+
+
+def model_line_rw(start, stop, step, cont, max_iter, e1, table, esub):
+    parts = ["rw", core.rs(start), core.rs(stop), core.rs(step), "1" if cont else "0", str(max_iter), core.rs(e1), str(len(table))]
+    for s, (nb, e, sz) in table.items():
+        parts += [core.rs(s), str(nb), core.rs(e), core.rs(sz)]
+    parts += [str(len(esub))] + [core.rs(v) for v in esub]
+    return " ".join(parts)
+
+
+def rw_case(rng):
+    """A synthetic RowWise problem with dyadic spacings (float arithmetic on them is exact)."""
+    start = rng.choice([4.0, 5.0, 6.5, 8.0])
+    stop = start + rng.choice([2.0, 4.0, 8.0, 10.0])
+    step = rng.choice([0.625, 1.25, 2.5, 0.3125])
+    s0 = rng.uniform(start - 3, stop + 3)          # feasibility threshold in spacing
+    slope = rng.uniform(0.2, 3.0)
+    wiggle = rng.choice([0.0, 0.0, 0.8, 3.0])      # non-monotone component
+    seed = rng.randrange(1 << 30)
+
+    def oracle(s):
+        import random as _r
+
+        r = _r.Random(hash((seed, s)))
+        nb = max(1, int(900.0 / (s * s)) + r.randint(0, 2))
+        e = slope * (s - s0) + wiggle * (r.random() - 0.5)
+        if rng_zero and r.random() < 0.02:
+            e = 0.0
+        return nb, e, round(r.uniform(60.0, 135.0), 3)
+
+    rng_zero = rng.random() < 0.2
+    nmax = max(1, int(900.0 / (stop * stop)) + 2)
+    th = rng.randint(0, nmax + 1)
+    esub = [(1.0 if n < th else -1.0) * (0.5 + 0.01 * n) if rng.random() > 0.1 else rng.choice([-1.0, 1.0, 0.0]) for n in range(1, nmax + 1)]
+    e1 = rng.choice([-0.5, 0.7, 0.7, 0.7, 0.0])
+    return start, stop, step, rng.random() < 0.4, rng.choice([10, 10, 3, 0]), e1, oracle, esub
